@@ -1,5 +1,6 @@
 mod common;
 mod e1;
+mod lanes;
 mod vcore;
 
 use common::Tier;
@@ -16,6 +17,11 @@ fn main() {
         let v: serde_json::Value = serde_json::from_str(&std::fs::read_to_string(&args[3]).expect("replay file")).expect("json");
         let code = match v["replay"]["engine"].as_str() {
             Some("e1") => e1::replay(&v),
+            Some("c07") => lanes::c07::replay(&v),
+            Some("c08") => lanes::c08::replay(&v),
+            Some("c09") => lanes::c09::replay(&v),
+            Some("c15") => lanes::c15::replay(&v),
+            Some("c20") => lanes::c20::replay(&v),
             other => {
                 eprintln!("unknown replay engine {:?}", other);
                 2
@@ -33,6 +39,11 @@ fn main() {
     };
     let code = match prop {
         "C01" | "C13" | "C04" | "C05" | "C10" | "C12" | "C16" => e1::run(prop, tier),
+        "C07" => lanes::c07::run(tier),
+        "C08" => lanes::c08::run(tier),
+        "C09" => lanes::c09::run(tier),
+        "C15" => lanes::c15::run(tier),
+        "C20" => lanes::c20::run(tier),
         _ => {
             eprintln!("unknown property {}", prop);
             2
